@@ -5,7 +5,7 @@ check reports a VIOLATION ("killed"), all stay green ("survived") or the tree do
 /repo is restored (git checkout) after every mutant. Survivors are *candidates* for generator gaps;
 each one has to be read by a human: many are equivalent mutants or lie outside every property.
 
-usage: mutate.py <crate-relative-file> <parts comma separated> [--max N] [--seed S] [--only-line L]
+usage: mutate.py <crate-relative-file> <parts comma separated> [--max N] [--seed S] [--only-line L] [--redo]
        a part is ENGINE:ID, e.g. pcheck:C14,pcheck:C11,echeck:C17 (dev profile; the engines are the
        same binaries ./check runs, their evidence goes to /verif/mutate/tmp so that the committed
        evidence is not touched); results are appended to /verif/mutate/results.jsonl
@@ -65,12 +65,13 @@ def sh(cmd, timeout):
 
 def main():
     rel, ids = sys.argv[1], sys.argv[2].split(",")
-    mx, seed, only = 10, 1, None
+    mx, seed, only, redo = 10, 1, None, False
     a = sys.argv[3:]
     while a:
         if a[0] == "--max": mx = int(a[1]); a = a[2:]
         elif a[0] == "--seed": seed = int(a[1]); a = a[2:]
         elif a[0] == "--only-line": only = int(a[1]); a = a[2:]
+        elif a[0] == "--redo": redo = True; a = a[1:]
         else: a = a[1:]
     path = os.path.join(REPO, rel)
     if sh(f"git -C {REPO} status --short", 60)[1].strip():
@@ -81,7 +82,7 @@ def main():
     rnd = random.Random(seed)
     rnd.shuffle(cand)
     done = set()
-    if os.path.exists(OUT):
+    if os.path.exists(OUT) and not redo:
         for l in open(OUT):
             try:
                 d = json.loads(l); done.add((d["file"], d["line"], d["op"], d["col"]))
